@@ -79,6 +79,25 @@ def quantifier_family():
     return out
 
 
+def pair_family():
+    """a connective over two comparisons of the same operand with literals (`x = 0 or x = 1`, `x < 1 iff x >= 0`, ...): the rules
+    that recognise complementary / contradictory operand pairs (`_obviously_different`, `_obvious_negatives`) live here, and
+    "mutually exclusive" is not "complementary"; every pair of relational operators, three literal pairs, six connectives"""
+    rel = ['=', '!=', '<', '<=', '>', '>=']
+    out = []
+    for conn in ('and', 'or', 'implies', 'iff', '=', '!='):
+        for o1 in rel:
+            for o2 in rel:
+                for k1, k2 in ((0, 1), (1, 0), (0, 0)):
+                    out.append(('bin', conn, ('bin', o1, X, int_lit(k1)), ('bin', o2, X, int_lit(k2))))
+    for o1 in rel:
+        for o2 in rel:
+            p, q = ('bin', o1, X, int_lit(0)), ('bin', o2, X, int_lit(1))
+            out += [('bin', 'or', Bf, ('bin', 'or', p, q)), ('bin', 'and', ('bin', 'and', p, q), Cf), ('bin', 'or', ('bin', o1, X, Y), ('bin', o2, X, AV)),
+                    ('bin', 'iff', ('bin', o1, int_lit(0), X), ('bin', o2, int_lit(1), X)), ('un', 'not', ('bin', 'or', p, q))]
+    return out
+
+
 def conversion_family():
     """conversions applied to conversions of literals (`int(str(3))`, `float(str(2.5))`, `bool(str(0))` ...): the folding works on
     Python values, and `str()` produces strings without the quotes a string literal of the text carries"""
@@ -155,7 +174,7 @@ def run(ctx):
     ep, prp = expression_parser(), predicate_parser()
     genv = grid_envs()
     g1, g2, g3 = small_grammar(rng, 400 if ctx.quick else 4000)
-    forms = g1 + (rng.sample(g2, 2500) if ctx.quick else g2) + g3 + quantifier_family() + conversion_family()
+    forms = g1 + (rng.sample(g2, 2500) if ctx.quick else g2) + g3 + quantifier_family() + conversion_family() + pair_family()
     cases = []
     rejects = 0
     for k, r in enumerate(forms):
